@@ -1,5 +1,9 @@
+#![allow(dead_code, unused_imports, unused_variables)]
 mod kzg;
+mod pc;
 mod proto;
+mod schemes;
+mod sponge;
 mod util;
 
 use proto::{read_cases, Out};
@@ -48,6 +52,7 @@ fn main() {
                 let mut out = Out::default();
                 let r = std::panic::catch_unwind(std::panic::AssertUnwindSafe(|| match c.kind.as_str() {
                     "kzg10" => kzg::run(&c, &mut out),
+                    "pc" => schemes::run(&c, &mut out),
                     k => panic!("unknown case kind {}", k),
                 }));
                 writeln!(o, "case {}", c.id).unwrap();
